@@ -1,7 +1,12 @@
 package vfx
 
 import (
+	"k8s.io/apimachinery/pkg/api/meta"
 	metav1 "k8s.io/apimachinery/pkg/apis/meta/v1"
+	"k8s.io/apimachinery/pkg/fields"
+	"k8s.io/apimachinery/pkg/runtime"
+	fakedynamic "k8s.io/client-go/dynamic/fake"
+	k8stesting "k8s.io/client-go/testing"
 	"k8s.io/apimachinery/pkg/runtime/schema"
 	"k8s.io/apimachinery/pkg/version"
 	fakediscovery "k8s.io/client-go/discovery/fake"
@@ -22,6 +27,43 @@ func NewMiniCluster() *klient.Client {
 		{Group: "stable.example.com", Version: "v1", Resource: "crontabs"}: "CronTabList",
 	}
 	c := klient.NewFake(gvrs)
+	// The fake object tracker ignores field selectors; the operator relies on
+	// metadata.name=<name> (nameSelector.matchNames). Honour it the way an API server does.
+	if fd, ok := c.Dynamic().(*fakedynamic.FakeDynamicClient); ok {
+		react := k8stesting.ObjectReaction(fd.Tracker())
+		fd.PrependReactor("list", "*", func(action k8stesting.Action) (bool, runtime.Object, error) {
+			la, ok := action.(k8stesting.ListAction)
+			if !ok {
+				return false, nil, nil
+			}
+			fs := la.GetListRestrictions().Fields
+			if fs == nil || fs.Empty() {
+				return false, nil, nil
+			}
+			handled, obj, err := react(action)
+			if !handled || err != nil {
+				return handled, obj, err
+			}
+			items, err := meta.ExtractList(obj)
+			if err != nil {
+				return true, obj, nil
+			}
+			var kept []runtime.Object
+			for _, it := range items {
+				acc, err := meta.Accessor(it)
+				if err != nil {
+					continue
+				}
+				if fs.Matches(fields.Set{"metadata.name": acc.GetName(), "metadata.namespace": acc.GetNamespace()}) {
+					kept = append(kept, it)
+				}
+			}
+			if err := meta.SetList(obj, kept); err != nil {
+				return true, nil, err
+			}
+			return true, obj, nil
+		})
+	}
 	disc, ok := c.Discovery().(*fakediscovery.FakeDiscovery)
 	if !ok {
 		panic("vfx: Discovery() is not a FakeDiscovery")
